@@ -405,3 +405,62 @@ def lemmas(props=None):
     step('D_stable_under_idle_poll', D(g), g['w'] == IDLE, dict(g), D)
     return {'results': res, 'assumptions': ['A12 multiprocessing.Queue is a FIFO channel; get(True, t) returns the head or raises Empty; a process that is not alive never puts again; SIGKILL ends the worker',
                                             'A15 pickling through mp.Queue preserves PlayAndCompareResult structurally']}
+
+
+# ------------------------------------------------------------------ dedicated process: the worker side (its guarantee)
+def worker_target(props=None):
+    """_playback_process_target: every iteration polls the terminate event, takes at most one task, and for a task taken puts EXACTLY ONE
+    answer, computed for that task: (True, result of the worker body for this id) or (False, text of its ordinary exception).  These are the
+    'take' / 'answer' steps whose stability the parent-side proof relies on (lemmas T_stable_*); an interrupt-style exception ends the worker."""
+    repo, spec, ex, st, selfv, fr, node, info, cfg, mem = mk(EQ + '_playback_process_target', dedicated=False)
+    trace = []
+
+    def objmethod(ex_, s, cls, name, recv, pos, kw, node_, star, dstar):
+        if cls == 'Event' and name == 'is_set':
+            v = fresh('terminate', z3.BoolSort()); s.g['polls'] = s.g.get('polls', 0) + 1; return [(s, ('val', B(v)))]
+        if cls == 'Queue' and name == 'get' and s.entails(recv == s.rd(selfv, '_compare_tasks')):
+            s2 = s.copy(); t = fresh('task'); s.g['taken'] = s.g.get('taken', []) + [t]; s.g['get_args'] = list(pos)
+            return [(s, ('val', t)), (s2, ('exc', s2.exc_obj('Empty')))]
+        if cls == 'Queue' and name == 'put' and s.entails(recv == s.rd(selfv, '_compare_results')):
+            s.g['put'] = s.g.get('put', []) + [pos[0]]; return [(s, ('val', NONE))]
+        return None
+    spec.objmethod = objmethod
+
+    def c_body(ex_, s, args, kw, node_, star, dstar):
+        s2 = s.copy(); v = fresh('body_result'); e = s2.sym_exc(label='exc_body')
+        s.g['body'] = s.g.get('body', []) + [(args[1], ('ret', v))]; s2.g['body'] = s2.g.get('body', []) + [(args[1], ('raise', e))]
+        return [(s, ('val', v)), (s2, ('exc', e))]
+    ex.contracts['Equalizer._play_and_compare_recording'] = c_body
+
+    def loop(ex_, s0, n, itv):
+        if not isinstance(n, ast.While):
+            return None
+
+        def havoc_state(s):
+            s.g['taken'] = []; s.g['put'] = []; s.g['body'] = []
+
+        def per_iteration(s):
+            tk, pt, bd = s.g.get('taken', []), s.g.get('put', []), s.g.get('body', [])
+            cl = [('at_most_one_task_taken_per_iteration', z3.BoolVal(len(tk) <= 1)),
+                  ('one_answer_iff_a_task_was_taken', z3.BoolVal(len(pt) == len(tk)))]
+            if len(tk) == 1 and len(pt) == 1 and len(bd) == 1:
+                sq = s.seq(pt[0]); rid, out = bd[0]
+                cl.append(('the_answer_is_for_the_task_taken', z3.And(rid == tk[0], z3.Length(sq) == 2,
+                                                                       z3.If(z3.BoolVal(out[0] == 'ret'), z3.And(sq[0] == B(True), sq[1] == out[1]), sq[0] == B(False)))))
+            ga = s.g.get('get_args')
+            if ga is not None:
+                cl.append(('task_wait_is_a_short_blocking_poll', z3.And(z3.BoolVal(len(ga) == 2), truthy(ga[0]), num(ga[1]) > 0, num(ga[1]) <= 1) if len(ga) == 2 else z3.BoolVal(False)))
+            return cl
+        return dict(inv=lambda s: z3.BoolVal(True), havoc=['recording_id', 'execution_result', 'ex'], havoc_state=havoc_state, per_iteration=per_iteration, name='loop.worker')
+    spec.loop = loop
+    st.g.update(taken=[], put=[], body=[])
+    paths = ex.block(node.body, st); obl = []; U = '_playback_process_target'
+    obl += [Obl('C08/%s/%s' % (U, a), ('C08', 'C13'), s_, c_, oc_) for a, s_, c_, oc_ in ex.obligations]
+    for s, oc in paths:
+        if oc[0] == 'raise':
+            bd = s.g.get('body', [])
+            obl.append(Obl('C08/%s/dies_only_by_an_interrupt_of_the_worker_body_without_answering' % U, ('C08', 'C13'), s,
+                           z3.And(oc[1] == bd[-1][1][1], z3.Not(is_exc(oc[1])), z3.BoolVal(len(s.g.get('put', [])) == 0)) if bd and bd[-1][1][0] == 'raise' else z3.BoolVal(False), oc))
+        else:
+            obl.append(Obl('C13/%s/returns_only_after_seeing_the_terminate_event' % U, 'C13', s, z3.BoolVal(bool(s.g.get('loop_exit_by_guard'))), oc))
+    return [info], obl, {'paths': len(paths), 'forks': ex.forks}
